@@ -783,6 +783,8 @@ package tree
 //@   call (*tree.Edge).SetId [every_branch_is_numbered_by_its_position_in_the_list_before_the_flood] a0 == e && a1 == rangeindex + 1 && e == edges[rangeindex + 1] && len(visited) == len(edges)
 //@   loop 1
 //@     step [a_branch_is_unvisited_once_numbered] visited[rangeindex + 1] == false
+//@   loop 2
+//@     step [a_flooded_component_becomes_a_group_only_when_it_holds_a_tip] e.length < maxlen ==> len(next(bags)) == len(bags) + (len(tipBag.tips) > 0 ? 1 : 0)
 
 // the order used to sort the tips of the matrix: by the names of the tips being sorted
 //@ func (*tree.Tree).ToDistanceMatrix$1
@@ -811,7 +813,7 @@ package tree
 //@   flag noframe
 //@   requires treechan != nil
 //@   recv treechan [message_carries_a_tree] msg.Tree != nil
-//@   call (*tree.Tree).ToDistanceMatrix [every_tree_is_measured_with_the_requested_metric] a1 == metric && a0 == t.Tree
+//@   call (*tree.Tree).ToDistanceMatrix [every_tree_is_measured_with_the_requested_metric] a1 == old(metric) && a0 == t.Tree
 //@   loop 4
 //@     step [entry_accumulates_the_same_entry_of_the_next_matrix] matrix[i][j] == atHead(matrix[i][j]) + atHead(matrix2[i][j])
 //@   loop 6
